@@ -133,6 +133,13 @@ class ProductStack:
         """
         return list(self.lookup.keys())
 
+    def hasFlavor(self, flavor):
+        """
+        return true if the data of this platform flavor is loaded (be it without any product): only then
+        does this stack know which products are declared for the flavor
+        """
+        return flavor in self.lookup
+
     def getTags(self, flavor=None, productName=None):
         """
         return all assigned tags assigned on this stack
